@@ -9,9 +9,11 @@ import time
 
 from .util import REPO, VERIF
 
-WORK = os.path.join(VERIF, '.work')
-STAMP = os.path.join(WORK, 'repo_build.json')
-LOCK = os.path.join(WORK, 'repo_build.lock')
+# lock and stamp live with the build output of the repository they describe (git-ignored /repo/build), so that every
+# copy of /verif (working tree, snapshots) serialises on the same lock and shares the same stamp
+WORK = os.path.join(REPO, 'build')
+STAMP = os.path.join(WORK, '.verif_build_stamp.json')
+LOCK = os.path.join(WORK, '.verif_build.lock')
 PY = '/venv/bin/python'
 
 
@@ -61,14 +63,16 @@ def ensure_built(log=None):
         if not changed and not _so_missing(h):
             return dict(rebuilt=False, seconds=time.time() - t0, changed=[])
         args = [PY, 'setup.py', 'build_ext', '--inplace', '-j16']
-        if not old or any(c.endswith('.pxd') or c == 'setup.py' for c in changed):
-            # a changed .pxd affects its cimporters; cheapest sound answer is a forced rebuild
-            if old:
+        if old:
+            # content changed since the last build we know of: do not rely on timestamps
+            if any(c.endswith('.pxd') or c == 'setup.py' for c in changed):
+                # a changed .pxd affects its cimporters; cheapest sound answer is a forced rebuild
                 args.append('--force')
-        for c in changed:
-            p = os.path.join(REPO, c)
-            if os.path.exists(p):
-                os.utime(p, None)
+            for c in changed:
+                p = os.path.join(REPO, c)
+                if os.path.exists(p):
+                    os.utime(p, None)
+        # (no stamp at all: first run on this tree -- a timestamp-based build brings it up to date)
         env = dict(os.environ)
         env.pop('VSNEVER_CHERAB_CORE_VERIF', None)
         r = subprocess.run(args, cwd=REPO, stdout=subprocess.PIPE, stderr=subprocess.STDOUT, text=True, env=env)
